@@ -88,8 +88,11 @@ func partner(w *World, self *Task, p unsafe.Pointer, wantSend bool) (*Task, int)
 		if t == self || t.done || t.op == nil || t.resolved {
 			continue
 		}
-		for i, c := range t.op.cases {
-			if c.isSend() == wantSend && c.chanPtr() == p {
+		// chans/sends were computed by the owner of the operation: other tasks'
+		// case objects are not touched here (their memory belongs to the
+		// instrumented package and reading it would look like a race)
+		for i, cp := range t.op.chans {
+			if t.op.sends[i] == wantSend && cp == p {
 				return t, i
 			}
 		}
@@ -166,7 +169,7 @@ func (c *SCase[T]) fire(w *World, self *Task) {
 //go:noinline
 func resolve(t *Task, idx int) {
 	t.resolved = true
-	chp := t.op.cases[idx].chanPtr()
+	chp := t.op.chans[idx]
 	old := t.op
 	RaceRelease(unsafe.Pointer(&old.sync)) // this operation happens-before the partner's resumption
 	t.op = &Op{Desc: "rendezvous-resume", Ready: func() []int { return []int{idx} }, Fire: func(int) {
@@ -186,6 +189,10 @@ func Select(hasDefault bool, cases ...Case) int {
 	}
 	self := w.cur
 	op := &Op{Desc: "select", cases: cases}
+	for _, c := range cases {
+		op.chans = append(op.chans, c.chanPtr())
+		op.sends = append(op.sends, c.isSend())
+	}
 	if len(cases) == 1 && !hasDefault {
 		if cases[0].isSend() {
 			op.Desc = "send"
